@@ -19,20 +19,27 @@ type c17Req struct {
 	Vars    map[string]interface{}
 	Faults  map[string]string
 	Outcome string // syntax | validation | variable | field | success
+	// QueryOnly builds the schema without mutation and subscription roots;
+	// CountKeys demands one resolve notification per key of the response data
+	QueryOnly, CountKeys bool
 }
 
 var c17Reqs = []c17Req{
-	{"syntax", `{ x1 `, nil, nil, "syntax"},
-	{"validation", `{ nope }`, nil, nil, "validation"},
-	{"variable", `query($v: Int!) { echo(i: $v) }`, nil, nil, "variable"},
-	{"field-errors", `{ x1 leafy { s sNN } x2 }`, nil, map[string]string{"R@leafy.sNN": FErr, "R@x2": FValErr}, "field"},
-	{"success", `{ x1 a { name items(n:2) { n } } }`, nil, nil, "success"},
-	{"mutation", `mutation { s1(v:1) m1(v:2) { id nn { s } } s2(v:3) }`, nil, nil, "success"},
-	{"thunks", `{ x1 b { name nodes(n:2) { id } } x2 }`, nil, map[string]string{"R@b": FThunk, "R@b.nodes": FThunk, "R@x2": FThunk}, "success"},
-	{"data-null", `{ x1 leafyNN { sNN } }`, nil, map[string]string{"R@leafyNN.sNN": FErr}, "field"},
-	{"nonnull-nil", `{ x1 leafy { s sNN } b { nn { iNN } id } x2 }`, nil, map[string]string{"R@leafy.sNN": FNil, "R@b.nn.iNN": FTypedNil, "R@b.id": FNil}, "field"},
-	{"all-skipped", `{ x1 @skip(if:true) ... @include(if:false) { x2 } }`, nil, nil, "success"},
-	{"typename-only", `{ a { id } u { ... on A { aOnly } ... on B { bOnly } } }`, nil, nil, "success"},
+	{"syntax", `{ x1 `, nil, nil, "syntax", false, false},
+	{"validation", `{ nope }`, nil, nil, "validation", false, false},
+	{"variable", `query($v: Int!) { echo(i: $v) }`, nil, nil, "variable", false, false},
+	{"field-errors", `{ x1 leafy { s sNN } x2 }`, nil, map[string]string{"R@leafy.sNN": FErr, "R@x2": FValErr}, "field", false, false},
+	{"success", `{ x1 a { name items(n:2) { n } } }`, nil, nil, "success", false, false},
+	{"mutation", `mutation { s1(v:1) m1(v:2) { id nn { s } } s2(v:3) }`, nil, nil, "success", false, false},
+	{"thunks", `{ x1 b { name nodes(n:2) { id } } x2 }`, nil, map[string]string{"R@b": FThunk, "R@b.nodes": FThunk, "R@x2": FThunk}, "success", false, false},
+	{"data-null", `{ x1 leafyNN { sNN } }`, nil, map[string]string{"R@leafyNN.sNN": FErr}, "field", false, false},
+	{"nonnull-nil", `{ x1 leafy { s sNN } b { nn { iNN } id } x2 }`, nil, map[string]string{"R@leafy.sNN": FNil, "R@b.nn.iNN": FTypedNil, "R@b.id": FNil}, "field", false, false},
+	{"all-skipped", `{ x1 @skip(if:true) ... @include(if:false) { x2 } }`, nil, nil, "success", false, false},
+	{"typename-only", `{ a { id } u { ... on A { aOnly } ... on B { bOnly } } }`, nil, nil, "success", false, false},
+	{"typename-fields", `{ __typename a { __typename id name } u { __typename ... on A { aOnly } ... on B { bOnly } } nodes(n:2) { __typename id } }`, nil, nil, "success", false, true},
+	{"thunk-then-nonnull-fail", `{ x1 leafy { s i sNN } b { name nn { s iNN } } }`, nil, map[string]string{"R@leafy.s": FThunk, "R@leafy.i": FThunk, "R@leafy.sNN": FErr, "R@b.name": FThunk, "R@b.nn.s": FThunk, "R@b.nn.iNN": FNil}, "field", false, false},
+	{"mutation-on-query-only-schema", `mutation { ... on Node { id } s1(v:1) }`, nil, nil, "validation", true, false},
+	{"subscription-on-query-only-schema", `subscription { ... on U { ... on A { id } } events { id } }`, nil, nil, "validation", true, false},
 }
 
 var c17Hooks = []string{"Init", "PS", "PE", "VS", "VE", "ES", "EE", "RS", "RE", "HR", "GR"}
@@ -188,6 +195,8 @@ func (c17) Run(t TestingT, scn json.RawMessage, tape *Tape) *Outcome {
 	}
 	verifmo.Set(verifmo.Sorted, 0)
 	var w *World
+	QueryOnlyWorld = req.QueryOnly
+	defer func() { QueryOnlyWorld = false }()
 	if sc.Entry == "plan-addext" {
 		w = NewWorld("A") // the extensions are registered after the plan was prepared
 	} else {
@@ -331,13 +340,15 @@ func (c17) Run(t TestingT, scn json.RawMessage, tape *Tape) *Outcome {
 					ee := e
 					openRS = &ee
 				}
-				if rp, ok := rPos[e.Path]; !ok || !(e.Pos < rp[0]) {
+				if strings.HasPrefix(lastSeg(e.Path), "__") {
+					// meta fields have no instrumented resolver to enclose
+				} else if rp, ok := rPos[e.Path]; !ok || !(e.Pos < rp[0]) {
 					o.Violate("C17/resolve-not-enclosing", "%s: RS:%s does not precede the resolver invocation", x, e.Path)
 				}
 			case "RE":
 				if openRS == nil || openRS.Path != e.Path {
 					o.Violate("C17/resolve-unbalanced", "%s: RE:%s without matching RS: %s", x, e.Path, wordOf(mine))
-				} else {
+				} else if !strings.HasPrefix(lastSeg(e.Path), "__") {
 					rp := rPos[e.Path]
 					if !(rp[1] >= 0 && rp[1] < e.Pos) {
 						o.Violate("C17/resolve-not-enclosing", "%s: RE:%s does not follow the resolver's return", x, e.Path)
@@ -402,7 +413,7 @@ func (c17) Run(t TestingT, scn json.RawMessage, tape *Tape) *Outcome {
 				rs = append(rs, e.Path)
 			}
 		}
-		if count["ES"] > 0 && strings.Join(rs, ",") != strings.Join(rPlus, ",") {
+		if count["ES"] > 0 && !req.CountKeys && strings.Join(rs, ",") != strings.Join(rPlus, ",") {
 			o.Violate("C17/resolve-count", "%s: resolve notifications %v differ from resolver invocations %v", x, rs, rPlus)
 		}
 		// the panic-free word is exact
@@ -422,7 +433,15 @@ func (c17) Run(t TestingT, scn json.RawMessage, tape *Tape) *Outcome {
 				if entry != "plan" {
 					want += "VS VE "
 				}
-				want += "ES " + strings.Repeat("RS RE ", len(rPlus)) + "EE HR "
+				nFields := len(rPlus)
+				if req.CountKeys {
+					var dec struct {
+						Data interface{} `json:"data"`
+					}
+					json.Unmarshal([]byte(MarshalResult(res)), &dec)
+					nFields = countKeys(dec.Data)
+				}
+				want += "ES " + strings.Repeat("RS RE ", nFields) + "EE HR "
 				if sc.HasResult[x] {
 					want += "GR "
 				}
@@ -430,6 +449,22 @@ func (c17) Run(t TestingT, scn json.RawMessage, tape *Tape) *Outcome {
 			if word != want {
 				o.Violate("C17/pipeline", "%s: without any panic the hook sequence is %q, expected %q", x, word, want)
 			}
+		}
+	}
+	if req.CountKeys && len(sc.Plan) == 0 && sc.NExt > 0 {
+		// every key of every object in the response is one executed field
+		var dec struct {
+			Data interface{} `json:"data"`
+		}
+		json.Unmarshal([]byte(MarshalResult(res)), &dec)
+		nRS := 0
+		for _, e := range evs {
+			if e.Ext == extName(0) && e.Hook == "RS" {
+				nRS++
+			}
+		}
+		if want := countKeys(dec.Data); nRS != want {
+			o.Violate("C17/resolve-count", "the response has %d fields but %s saw %d resolve notifications: %s", want, extName(0), nRS, MarshalResult(res))
 		}
 	}
 	for key, set := range startsSeen {
@@ -467,4 +502,19 @@ func wordOf(evs []extEv) string {
 		b.WriteString(" ")
 	}
 	return b.String()
+}
+
+func countKeys(v interface{}) int {
+	n := 0
+	switch x := v.(type) {
+	case map[string]interface{}:
+		for _, c := range x {
+			n += 1 + countKeys(c)
+		}
+	case []interface{}:
+		for _, c := range x {
+			n += countKeys(c)
+		}
+	}
+	return n
 }
